@@ -218,7 +218,12 @@ Definition from_raw_ord (ord : list (list N) -> list (list N)) (O : oracles) (va
   end.
 Definition from_raw := from_raw_ord (fun l => l).
 
-(* from_email after parse_email returned (raw, unparsed): unparsed keys alone make the group; otherwise from_raw *)
+(* from_email after parse_email returned (raw, unparsed): one InvalidMetadata per unparsed key (only when validating), then from_raw
+   on the parsed fields in any case; ONE group holding the unparsed keys followed by from_raw's errors *)
 Definition from_email (O : oracles) (validate : bool) (data : list (list N * rawv)) (unparsed : list (list N)) : frres :=
-  if validate && negb (match unparsed with [] => true | _ => false end) then FGroup unparsed
-  else from_raw O validate data.
+  let exceptions := if validate then unparsed else [] in
+  match from_raw O validate data with
+  | FOk s => match exceptions with [] => FOk s | _ => FGroup exceptions end
+  | FGroup es => FGroup (exceptions ++ es)
+  | FCrash c => FCrash c
+  end.
